@@ -28,6 +28,7 @@ import Np.Model.IndexFns
 import Np.Model.SelectFns
 import Np.Model.BilinearFns
 import Np.Model.AdvIndexFns
+import Np.Model.GenIndexFns
 import Np.Model.ConstFns
 import Np.Model.ElemFns
 import Np.Model.ReduceFns2
@@ -519,6 +520,36 @@ def runCase (j : Json) : E Json := do
     | "take" => pure (show1 (AdvIndexFns.takeF shape (← jIx (← j.getObjVal? "ix")) (← jNat (← j.getObjVal? "axis"))))
     | "repeats" => pure (show1 (AdvIndexFns.repeatsF shape (← jNats (← j.getObjVal? "reps")) (← jNat (← j.getObjVal? "axis"))))
     | _ => throw s!"unknown advanced index function {fn}"
+  | "genindexfn" =>
+    -- the general index expression a[items]: ints, slices, newaxis, ellipsis, integer arrays, boolean masks
+    -- (Np/Model/GenIndexFns.lean)
+    let shape ← jNats (← j.getObjVal? "shape")
+    let optInt := fun (x : Json) => match x with | .null => (pure none : E (Option Int)) | _ => do pure (some (← x.getInt?))
+    let jInts := fun (x : Json) => do (← jList x).mapM fun v => v.getInt?
+    let items ← (← jList (← j.getObjVal? "items")).mapM fun it => do
+      match it with
+      | .str "newaxis" => pure GenIndexFns.GItem.newaxis
+      | .str "ellipsis" => pure GenIndexFns.GItem.ellipsis
+      | _ =>
+        match it.getObjVal? "int" with
+        | .ok v => do pure (GenIndexFns.GItem.int (← v.getInt?))
+        | .error _ =>
+          match it.getObjVal? "slice" with
+          | .ok v => do
+            match ← jList v with
+            | [a, b, c] => do pure (GenIndexFns.GItem.slice (← optInt a) (← optInt b) (← c.getInt?))
+            | _ => throw "bad slice"
+          | .error _ =>
+            match it.getObjVal? "arr" with
+            | .ok v => do
+              pure (GenIndexFns.GItem.arr ((← jNats (← v.getObjVal? "shape")), (← jInts (← v.getObjVal? "data"))))
+            | .error _ => do
+              let v ← it.getObjVal? "mask"
+              let bits ← (← jList (← v.getObjVal? "data")).mapM fun b => b.getBool?
+              pure (GenIndexFns.GItem.mask (← jNats (← v.getObjVal? "shape")) bits)
+    match GenIndexFns.genIndexF shape items with
+    | some (s, idx) => pure (Json.mkObj [("status", "ok"), ("kind", "gather"), ("shape", toJson s), ("idx", toJson idx)])
+    | none => pure (Json.mkObj [("status", "ok"), ("kind", "none")])
   | "constfn" =>
     -- numpy's semantics on integer / rational value arrays (Np/Model/ConstFns.lean)
     let fn ← (← j.getObjVal? "fn").getStr?
